@@ -30,8 +30,9 @@ impl Eq for C64 {}
 
 impl Hash for C64 {
   fn hash<H: Hasher>(&self, state: &mut H) {
-    self.0.re.to_bits().hash(state);
-    self.0.im.to_bits().hash(state);
+    // +0.0 == -0.0, so both must hash alike
+    (if self.0.re == 0.0 { 0.0f64 } else { self.0.re }).to_bits().hash(state);
+    (if self.0.im == 0.0 { 0.0f64 } else { self.0.im }).to_bits().hash(state);
   }
 }
 
